@@ -94,3 +94,14 @@ def segment_rand_single_frame(case, observed):
     if fr is None or len(fr[0]) != 1:
         return False
     return isinstance(observed, dict) and any(isinstance(v, float) and v != v for v in observed.values())
+
+
+def transcription_ambiguous_self_matching(case, observed):
+    """x scored against itself: when the identity is not the only maximum note matching (e.g. simultaneous
+    quarter-tone neighbours i~k, j~k, i!~j) the library's matching may pair notes crosswise: AOR < 1, and with
+    velocities the regression can reject every pair."""
+    from mc.tasks import base
+    if case.get("kind") != "single":
+        return False
+    t = base.load(case["task"])
+    return bool(t.ambiguous_self_matching(base.tup(case["x"]), case.get("cfg", {}), case["func"]))
